@@ -569,7 +569,9 @@ func randomSequences(r *vk.Run) {
 		init := genInit(rng)
 		clients := true
 		crashKey := "C19/panic/server-goroutine"
-		if !r.Guard(crashKey, map[string]any{"stream": "rand", "case": i}) {
+		// a panic on a goroutine started by the in-process clients would kill the worker: let the driver attribute it
+		// (in replay mode, r.Only set, every case runs unguarded)
+		if r.Only == "" && !r.Guard(crashKey, map[string]any{"stream": "rand", "case": i}) {
 			continue
 		}
 		c := newSeqCase(r, t, "rand-"+doorMode, i, clients, randTargets, init...)
